@@ -5,7 +5,7 @@ use chia_consensus::sanitize_int::{sanitize_uint, SanitizedUint};
 use chia_consensus::solution_generator::calculate_generator_length;
 use chia_consensus::validation_error::{ErrorCode, ValidationErr};
 use chia_protocol::{Bytes32, Coin, CoinSpend, Program};
-use clvm_traits::{decode_number, encode_number};
+use clvm_traits::{decode_number, encode_number, FromClvm, ToClvm};
 use clvmr::serde::node_to_bytes;
 use clvmr::Allocator;
 
@@ -105,6 +105,56 @@ fn run(name: &str, args: &[String]) -> Option<String> {
             let be = hx(&args[2]);
             let neg = signed && !be.is_empty() && (be[0] & 0x80) != 0;
             Some(hexo(&encode_number(&be, neg)))
+        }
+        "ints.prim" => {
+            // LEN SIGNED BE: ToClvm of the primitive integer of that width and sign (through the real Allocator
+            // encoder), then FromClvm of the produced atom back: "<atom> <value-bytes or ERR>"
+            let len = dec(&args[0]);
+            let signed = dec(&args[1]) == 1;
+            let be = hx(&args[2]);
+            macro_rules! prim {
+                ($t:ty) => {{
+                    let v = <$t>::from_be_bytes(be.as_slice().try_into().unwrap());
+                    let mut a = Allocator::new();
+                    let n = v.to_clvm(&mut a).unwrap();
+                    let atom = a.atom(n).as_ref().to_vec();
+                    let back = match <$t>::from_clvm(&a, n) {
+                        Ok(w) => hexo(&w.to_be_bytes()),
+                        Err(_) => "ERR".into(),
+                    };
+                    format!("{} {}", hexo(&atom), back)
+                }};
+            }
+            Some(match (len, signed) {
+                (1, false) => prim!(u8),
+                (2, false) => prim!(u16),
+                (4, false) => prim!(u32),
+                (8, false) => prim!(u64),
+                (16, false) => prim!(u128),
+                (1, true) => prim!(i8),
+                (2, true) => prim!(i16),
+                (4, true) => prim!(i32),
+                (8, true) => prim!(i64),
+                (16, true) => prim!(i128),
+                _ => return None,
+            })
+        }
+        "ints.primsize" => {
+            // usize / isize (pointer width): VALUE decimal (usize) or SIGNED-decimal via two's complement hex of 8 bytes
+            let signed = dec(&args[0]) == 1;
+            let be: [u8; 8] = hx(&args[1]).as_slice().try_into().unwrap();
+            let mut a = Allocator::new();
+            Some(if signed {
+                let v = i64::from_be_bytes(be) as isize;
+                let n = v.to_clvm(&mut a).unwrap();
+                let back = match isize::from_clvm(&a, n) { Ok(w) => hexo(&(w as i64).to_be_bytes()), Err(_) => "ERR".into() };
+                format!("{} {}", hexo(a.atom(n).as_ref()), back)
+            } else {
+                let v = u64::from_be_bytes(be) as usize;
+                let n = v.to_clvm(&mut a).unwrap();
+                let back = match usize::from_clvm(&a, n) { Ok(w) => hexo(&(w as u64).to_be_bytes()), Err(_) => "ERR".into() };
+                format!("{} {}", hexo(a.atom(n).as_ref()), back)
+            })
         }
         "ints.decn" => {
             let len = dec(&args[0]);
